@@ -38,12 +38,15 @@ struct wvar { int rfail, wfail, rcalls, wcalls; uint8_t *shadow; uint8_t *block;
 struct wcmd { char *name, *desc; struct script sc[2][4]; int nvar; struct wvar var[MAXVAR]; };
 struct action { int when_kind; long when; int kind, a1, a2; uint8_t *a3; size_t a3len; int done; };
 
-static struct cat_command cmds[MAXCMD];
+/* the descriptor structures handed to the library live in fresh heap blocks for every case (allocated before the previous
+ * case's blocks are freed, so the addresses differ): a pointer the library kept from an earlier cat_init is stale memory
+ * (use-after-free under ASan), never silently valid */
+static struct cat_command *cmds;
 static struct wcmd wc[MAXCMD];
 static int ncmd;
-static struct cat_variable vars[MAXCMD][MAXVAR];
-static struct cat_command_group groups[MAXGRP];
-static struct cat_command_group *gptr[MAXGRP];
+static struct cat_variable (*vars)[MAXVAR];
+static struct cat_command_group *groups;
+static struct cat_command_group **gptr;
 static char *gname[MAXGRP];
 static int ngrp, gstart[MAXGRP + 1];
 static struct cat_descriptor desc;
@@ -604,7 +607,7 @@ static int find_var(const struct cat_variable *v, int *ci, int *vi)
 {
         long off = (long)((const char *)v - (const char *)&vars[0][0]);
         long idx;
-        if (off < 0 || (size_t)off >= sizeof vars || off % (long)sizeof(struct cat_variable))
+        if (off < 0 || (size_t)off >= sizeof(struct cat_variable) * MAXCMD * MAXVAR || off % (long)sizeof(struct cat_variable))
                 return 0;
         idx = off / (long)sizeof(struct cat_variable);
         *ci = (int)(idx / MAXVAR);
@@ -685,10 +688,18 @@ void w_reset(void)
         }
         for (i = 0; i < nact; i++)
                 free(acts[i].a3);
-        memset(cmds, 0, sizeof(cmds[0]) * (size_t)(ncmd ? ncmd : 1));
         memset(wc, 0, sizeof(wc[0]) * (size_t)(ncmd ? ncmd : 1));
-        memset(vars, 0, sizeof(vars[0]) * (size_t)(ncmd ? ncmd : 1));
-        memset(groups, 0, sizeof groups);
+        {
+                struct cat_command *ocmds = cmds;
+                struct cat_variable (*ovars)[MAXVAR] = vars;
+                struct cat_command_group *ogroups = groups;
+                struct cat_command_group **ogptr = gptr;
+                cmds = calloc(MAXCMD, sizeof *cmds);
+                vars = calloc(MAXCMD, sizeof *vars);
+                groups = calloc(MAXGRP, sizeof *groups);
+                gptr = calloc(MAXGRP, sizeof *gptr);
+                free(ocmds); free(ovars); free(ogroups); free(ogptr);
+        }
         memset(acts, 0, sizeof(acts[0]) * (size_t)(nact ? nact : 1));
         ncmd = ngrp = nact = 0;
         free(buf); free(ubuf); free(buf_shadow); free(ubuf_shadow); free(buf_pristine); free(ubuf_pristine);
@@ -1175,6 +1186,7 @@ int main(void)
         static char line[1 << 21];
         out = stdout;
         setvbuf(stdout, NULL, _IOFBF, 1 << 20);
+        w_reset();
         while (fgets(line, sizeof line, stdin)) {
                 char *p = line, *op = next_tok(&p);
                 if (op == NULL)
